@@ -270,3 +270,47 @@ def check(run, prog, tier):
         run.ob("C13-c", inst, off == "text_end", "%s stores new input at text + %s" % (fn, off), gud.file, n.get("l"), "get_user_data",
                what="get_user_data (%s) copies new input to text + %s: a partial line kept from the previous read is overwritten, so delivered lines depend on packet boundaries" % (labels, off))
     run.need(nst >= 2, "stores of new input in get_user_data")
+
+    # ---- C13-d producer and consumer agree on what a complete command is
+    run.rule("C13-d", "the 'command available' flag CMD_IN_BUF is raised only on the true edge of cmd_in_buf(ip) - the same scanner get_user_command relies on (first_cmd_in_buf/cmd_in_buf) - so that whether a line is delivered does not depend on how the bytes were split into reads", 2)
+    nset = 0
+    for f in sorted(prog.functions(), key=lambda x: (x.file, x.line)):
+        sets = [(b, i, n) for b, i, n in f.nodes() if n.get("k") == "Asg" and n.get("op") == "|=" and facts.any_in_macro(n["R"], "CMD_IN_BUF") and strip(n["L"]).get("f") == "iflags"]
+        for j, (b, i, n) in enumerate(sets):
+            nset += 1
+            run.saw(f)
+            g = [(strip(c), t) for c, t, B in cfgq.guards(f, b.id)]
+            ok = any(t and c.get("k") == "Call" and c.get("fn") in ("cmd_in_buf", "first_cmd_in_buf") for c, t in g)
+            run.ob("C13-d", "cmd-flag:%s:%s:%d" % (rel(f.file), f.name, j), ok, "CMD_IN_BUF raised under cmd_in_buf(ip)" if ok else "CMD_IN_BUF is raised under %s, not under the buffer scan cmd_in_buf(): a complete line followed by the start of the next one in the same read is not announced" % [show(c)[:40] for c, t in g][-2:],
+                   f.file, n.get("l"), f.name, what="%s raises CMD_IN_BUF from a shortcut test instead of cmd_in_buf(): delivery of a complete line depends on where the read ended" % f.name)
+    run.need(nset >= 2, "stores raising CMD_IN_BUF (found %d)" % nset)
+
+    # ---- C13-e input bytes bypass the telnet state machine only when the whole state word says "plain data"
+    run.rule("C13-e", "copy_chars: a bulk copy of input bytes (memcpy/memmove from the input buffer, bypassing the per-byte switch) is guarded by a test of the complete state word (ip->state == TS_DATA), not of the masked state: flag bits above the mask (a pending CR) carry across reads", 1)
+    cc = run.need(prog.func("copy_chars"), "copy_chars")
+    run.saw(cc)
+    src_param = [p for p in (cc.params or []) if p.get("n") == "from"]
+    bulk = []
+    for b, i, n in cc.calls():
+        if n.get("fn") in ("memcpy", "memmove", "strncpy", "__builtin_memcpy", "__memcpy_chk", "__builtin___memcpy_chk") and len(n.get("args", [])) >= 2:
+            if any(x.get("k") == "Ref" and x.get("d") == "param" and src_param and x.get("id") == src_param[0].get("id") for x in walk(n["args"][1])):
+                bulk.append((b, i, n))
+    if not bulk:
+        run.ob("C13-e", "bulk-copy", True, "copy_chars has no bulk copy from its input: every byte goes through the state switch", cc.file, cc.line, "copy_chars")
+    for j, (b, i, n) in enumerate(bulk):
+        full = False
+        masked = False
+        for c, t, B in cfgq.guards(cc, b.id):
+            op, l, r = atom_of(c, t)
+            if op != "==":
+                continue
+            for x, y in ((strip(l), strip(r)), (strip(r), strip(l))):
+                if const_val(y) is None:
+                    continue
+                if x.get("k") == "Mem" and x.get("f") == "state":
+                    full = full or const_val(y) == 0 or facts.any_in_macro(y, "TS_DATA")
+                if x.get("k") == "Bin" and x.get("op") == "&" and any(w.get("k") == "Mem" and w.get("f") == "state" for w in walk(x)):
+                    masked = True
+        run.ob("C13-e", "bulk-copy:%d" % j, full, "bulk copy at line %s is taken only when ip->state == TS_DATA (no pending flags)" % n.get("l") if full else
+               "bulk copy of input at line %s is guarded by %s: a CR pending from the previous read (TS_CR_SEEN, above the mask) is ignored, so the line split depends on where the read ended" % (n.get("l"), "the masked state only" if masked else "no test of the state word"),
+               cc.file, n.get("l"), "copy_chars", what="copy_chars copies input bytes past the telnet state machine without requiring the complete state word to be TS_DATA")
